@@ -17,8 +17,8 @@ import (
 // ---------------------------------------------------------------------------------------------
 
 var (
-	tagVfx = log.RegisterTag("_vfx_t1")
-	tagVfy = log.RegisterTag("_vfy_t1")
+	tagVfx = regTag("_vfx_t1")
+	tagVfy = regTag("_vfy_t1")
 )
 
 const (
